@@ -16,7 +16,8 @@ def is_url(value: str) -> None:
 
 
 def is_int(value: int) -> None:
-    if not isinstance(value, int):
+    # bool is a subclass of int in Python, but JSON true/false is not a number
+    if isinstance(value, bool) or not isinstance(value, int):
         raise ValueError("must be an int")
 
 
